@@ -209,7 +209,7 @@ def _one(cfg, ci, si, troot, home, d, files, full, sp):
             return violation("C15:%s:no-warning" % sigbase, "no warning names %s after %s on %s #%d" % (fsd(X), errno.errorcode[en], op, nth),
                              witness, sig=(ci, sigbase))
     sig = (si, ci, fsd(X), op, nth, en, bool(second))
-    return ok(sig, {"config": cfg, "fault": witness["fault"]} if nth == 1 and en == errno.EIO and op == "open" and ci == 0 else None,
+    return ok(sig, {"config": cfg, "fault": witness["fault"]} if nth == 1 and en == errno.EIO and op.startswith("open") else None,
               {"faults_fired": len(fired), "ops": [op], "configs": [ci], "pairs": 1 if second else 0})
 
 
